@@ -718,6 +718,22 @@ func (w *world) intercept(m *rm.Model, h *rm.Host, e *rm.Entry, req *http.Reques
 	}
 	switch hs.Kind {
 	case "registry":
+		// every state-changing request is passed on to another endpoint with a redirect
+		if t := hs.WriteRedir - 1; hs.WriteRedir > 0 && w.validHost(t) && t != i && e.Mutating() && !strings.Contains(e.RawQuery, "via=wr") {
+			st := hs.WriteRedirSt
+			switch st {
+			case 301, 302, 303, 307, 308:
+			default:
+				st = 307
+			}
+			q := "via=wr"
+			if e.RawQuery != "" {
+				q = e.RawQuery + "&via=wr"
+			}
+			r := newResp(st)
+			r.Header.Set("Location", w.c.naturalScheme(t)+"://"+w.c.Hosts[t].Name+e.Path+"?"+q)
+			return r
+		}
 		if len(hs.Chain) > 0 && (e.Class == "blob-get" || (e.Class == "blob-head" && hs.ChainHead)) && !strings.Contains(e.RawQuery, "via=rd") {
 			if rp, ok := h.Repos[e.Repo]; ok {
 				if _, ok := rp.Blobs[e.Ref]; ok {
